@@ -1787,6 +1787,18 @@ func main() {
 		return in == 1 && out == 0 && rin == 1 && rout == 0
 	}(),
 		"in `tOps.remove` both `t.s.stor.Remove(fd)` and `t.s.reuseFileNum(fd.Num)` are called (once each) inside the func literal passed to `t.fileCache.Delete`, i.e. when the last cache handle of the table is gone, and nowhere else")
+	o.boolean("removeEvictsBeforeReuse", func() bool {
+		t := funcText("leveldb/table.go", "tOps.remove")
+		e := strings.LastIndex(t, "t.blockCache.EvictNS(uint64(fd.Num))")
+		r := strings.Index(t, "t.s.reuseFileNum(fd.Num)")
+		return e >= 0 && r > e && strings.Count(t, "reuseFileNum(") == 1 &&
+			strings.Contains(t, "reusable := t.s.nextFileNum() == fd.Num+1") &&
+			strings.Contains(t, "if t.blockCache != nil && (t.evictRemoved || reusable) {") &&
+			strings.Contains(t, "if reusable { t.s.reuseFileNum(fd.Num) }") || (e >= 0 && r > e && strings.Count(t, "reuseFileNum(") == 1 &&
+			strings.Contains(t, "reusable := t.s.nextFileNum() == fd.Num+1") &&
+			strings.Contains(strings.Join(strings.Fields(t), " "), "if reusable { t.s.reuseFileNum(fd.Num) }"))
+	}(),
+		"in `tOps.remove` every `t.blockCache.EvictNS(uint64(fd.Num))` precedes the only `t.s.reuseFileNum(fd.Num)`, and the eviction happens whenever the number is about to be given back (`reusable := t.s.nextFileNum() == fd.Num+1`; `if t.blockCache != nil && (t.evictRemoved || reusable)`): no other table can be named by the number while blocks of the removed one are cached (the D50 repair)")
 	o.boolean("closeTopsBeforeFinalSetVersion",
 		topStmtBefore("leveldb/session.go", "session.close", "s.tops.close()",
 			"s.setVersion(nil, &version{s: s, closing: true, id: s.ntVersionID})"),
